@@ -11,6 +11,9 @@ import (
 
 const modPath = "github.com/alicebob/sqlittle"
 
+// probeCalls: generate consistency probes around every contract application
+var probeCalls = false
+
 func (e *Engine) shortName(s string) string {
 	s = strings.ReplaceAll(s, modPath+"/", "")
 	s = strings.ReplaceAll(s, modPath+".", "sqlittle.")
@@ -381,6 +384,16 @@ func (fx *FX) applyContract(fr *frame, st *State, c *Contract, name string, call
 		env.names = fx.contractNames(c, callee, sig, targs, results, fnv)
 		env.onlyNames = true
 		env.freeCells = freeCells
+		var probe *Obligation
+		if probeCalls && len(fx.inlineStack) == 0 && (len(c.Ensures) > 0 || len(c.TrustedEns) > 0) {
+			// consistency probe (thorough tier): the path is satisfiable before the callee's postconditions
+			// are assumed ...
+			fx.probeCount++
+			probe = &Obligation{Name: fmt.Sprintf("%s.consistent(before call %s)#%d", fx.name, name, fx.probeCount), Kind: "cover", Func: fx.name,
+				Clause: "path reachable before the postconditions of " + name + " are assumed", Expect: "sat", Probe: "pre"}
+			fx.items = append(fx.items, item{kind: "oblig", ob: probe, reach: st.reach, goal: False})
+			fx.obs = append(fx.obs, probe)
+		}
 		for _, cl := range c.Ensures {
 			fx.assume(st.reach, fx.evalBool(env, cl.Expr))
 		}
@@ -390,6 +403,14 @@ func (fx *FX) applyContract(fr *frame, st *State, c *Contract, name string, call
 		}
 		if c.Kind == "extern" || c.Trusted {
 			fx.usedAssumed[c.Kind+" "+c.Name+" (whole contract assumed)"] = true
+		}
+		if probe != nil {
+			// ... and still satisfiable after: otherwise the contract contradicts what the caller knows
+			// and everything after the call would be proved vacuously
+			post := &Obligation{Name: fmt.Sprintf("%s.consistent(after call %s)#%d", fx.name, name, fx.probeCount), Kind: "cover", Func: fx.name,
+				Clause: "the postconditions of " + name + " do not contradict the caller's state", Expect: "sat", Probe: "post", ProbePre: probe}
+			fx.items = append(fx.items, item{kind: "oblig", ob: post, reach: st.reach, goal: False})
+			fx.obs = append(fx.obs, post)
 		}
 	}
 	fx.assumeClosureInvariants(fr, st, args)
